@@ -205,7 +205,7 @@ class Evaluator:
         # opaque dependency calls that return a scalar although their arguments are arrays
         self.scalar_deps = {"dep:uts.thresholding.isodata"}
         self.bool_registry: Dict[str, G] = {}        # boolean masks that were turned into opaque index atoms
-        self.summarise_loops = False                 # exact loop summaries (seqdom) instead of havoc where possible
+        self.summarise_loops = True                  # exact loop summaries (seqdom) instead of havoc where possible
         self.gen_depth = 0
         self.summary_log: List[Tuple[int, str]] = []
         self.summary_assumptions: set = set()
@@ -299,6 +299,19 @@ class Evaluator:
         if isinstance(v, Vec):
             if v.kind == "point" and v.items and isinstance(v.items[0], Rat) and v.items[0].is_array():
                 return self.length_of(v.items[0])
+            from .seqdom import Gen
+            if any(isinstance(i_, Gen) for i_ in v.items):
+                # a list with generator blocks: plain items count 1, an unguarded block its trip count times its parts;
+                # anything guarded has a length that is only known as "the length of this very list"
+                total = Rat.const(0)
+                for i_ in v.items:
+                    if not isinstance(i_, Gen):
+                        total = total.add(Rat.const(1))
+                    elif i_.ranged and all(g_.kind == "true" and not sp_ for g_, _v, sp_ in i_.parts) and i_.step.is_const() == 1:
+                        total = total.add(i_.hi.sub(i_.lo).mul(Rat.const(len(i_.parts))))
+                    else:
+                        return anf.opaque("len", self.to_rat(v), array=False)
+                return total
             return Rat.const(len(v.items))
         if isinstance(v, Rat):
             lens = []
@@ -799,6 +812,10 @@ class Frame:
             return g_atom(("truthy", v.key))
         if isinstance(v, Vec):
             if v.kind == "list":
+                from .seqdom import Gen
+                if v.items and all(isinstance(i_, Gen) for i_ in v.items):
+                    # only generator blocks: empty exactly when its length is 0
+                    return canon_sign(self.ev.length_of(v), OPS["!="])
                 return TRUE if v.items else FALSE
             return g_atom(("truthy", v.key))
         r = self.ev.to_rat(v)
